@@ -263,7 +263,12 @@ def gate_election(n_rows, n_non, seed, dup=False, lo=40, hi=900):
             dict(postal_code=st, geographic_unit_fips=fid, results_turnout=t, results_dem=dem, results_gop=t - dem, percent_expected_vote=pev)
         )
     if dup and n_units > 0:
-        feed.append(dict(feed[int(rng.integers(0, n_units))]))
+        # the repeated id is either an exact copy or a later version of the same unit with other vote counts
+        d = dict(feed[int(rng.integers(0, n_units))])
+        if seed % 2 == 1:
+            d["results_turnout"] += 3
+            d["results_gop"] += 3
+        feed.append(d)
     pre = synth.with_margin_features(pd.DataFrame(rows))
     cur = pd.DataFrame(feed)
     pre = pre.iloc[rng.permutation(len(pre))].reset_index(drop=True)
@@ -556,6 +561,15 @@ class CorrRecorder:
                 cur["pop"] = float(v)
                 return v
 
+            real_fit = self_.fit_model
+            cur["n"] = int(reporting_units.shape[0])
+            cur["nfit"] = []
+
+            def fit(model, df_X, df_y, tau, weights, normalize_weights):
+                cur["nfit"].append(int(df_X.shape[0]))
+                return real_fit(model, df_X, df_y, tau, weights, normalize_weights)
+
+            self_.fit_model = fit
             self_.get_unit_prediction_interval_bounds = bounds
             self_._compute_population_correction = pop
             try:
@@ -563,6 +577,7 @@ class CorrRecorder:
             finally:
                 del self_.get_unit_prediction_interval_bounds
                 del self_._compute_population_correction
+                del self_.fit_model
             cur["lower"] = np.array(out.lower, dtype=float)
             cur["upper"] = np.array(out.upper, dtype=float)
             cur["last"] = np.array(nonreporting_units[f"last_election_results_{estimand}"], dtype=float)
@@ -597,6 +612,8 @@ def corr_trace(call):
         "sS": [int(round(v * SCALE)) for v in scores.tolist()],
         "popRk": rank.get(pop, 0),
         "popS": int(round(pop * SCALE)) if not math.isnan(pop) else 0,
+        "n": call["n"],
+        "nfit": call["nfit"],
         "nr": [],
     }
     for j in range(len(call["last"])):
@@ -744,7 +761,7 @@ def job_swing_run(arg):
             synth.run_client(
                 pre,
                 cur,
-                estimands=("turnout",),
+                estimands=[("turnout",), ("turnout", "dem"), ("dem", "turnout")][seed % 3],
                 pis=(0.7,),
                 pi_method=estimator,
                 features=(),
